@@ -244,7 +244,8 @@ def _clustering(arg):
 def run(tier):
     rep = Report(ID, "exploration")
     salt = env.SEED % 5
-    names3 = [["a", "b", "c"], ["cpu", "gpu", "fpga"], ["Z", "a", "B"], ["p1", "p10", "p2"], ["x", "y", "z"]][salt]
+    # one name is always a substring of another: membership must be by equality, never by `in` on a string
+    names3 = [["a", "ab", "c"], ["cpu", "cpu-avx512", "gpu"], ["Z", "aZ", "B"], ["p1", "p10", "p2"], ["gpu", "xe-gpu", "y"]][salt]
     names4 = ["w", "x", "y", "z"]
     jobs = []
 
